@@ -591,7 +591,9 @@ def failure_classes(r):
             key = sig + ":" + panic_class(hook)[6:]
         out.append((key, sig + " " + hook + " " + r.get("tail", "")))
     if r.get("hang"):
-        out.append(("hang:" + r.get("hang_kind", "evaluation-ignores-interrupt"), "no answer within the hard limit, interrupt requested"))
+        ph = r.get("phase")
+        kind = {"read": "reader-time", "expand": "expander-time", "compile": "compiler-time"}.get(ph, "evaluation-ignores-interrupt")
+        out.append(("hang:" + kind, "no answer within the hard limit (phase reached: %s), interrupt requested" % ph))
     d = r.get("depth")
     q = r.get("probe")
     if res.startswith("panic "):
@@ -611,14 +613,8 @@ def failure_classes(r):
 
 
 def after_panic_signature(detail):
-    m = re.match(r"depth=(\S*) probe=(.*)$", detail, re.S)
-    d, q = (m.group(1), m.group(2)) if m else ("?", "?")
-    parts = []
-    if d != "0,0":
-        parts.append("residue")
-    if q != "same":
-        parts.append("probe-" + probe_signature(q))
-    return "+".join(parts) or "?"
+    """one class: whatever a caught panic leaves behind (frames, operands, a later assertion in the probe)"""
+    return "engine-state-not-reset"
 
 
 def probe_signature(q):
@@ -722,8 +718,8 @@ def run_texts(ctx, items, fresh_each=False, tag="t", engine_every=40, phases=Tru
             results[items[i][0]] = r
     t_b = time.time()
     if phases:
-        # which phase overflows the native stack (parser / expander+compiler / run)
-        over = [(k, b) for (k, b) in items if results.get(k, {}).get("death") == "stack-overflow"]
+        # which phase overflows the native stack / does not finish (parser / expander / compiler / run)
+        over = [(k, b) for (k, b) in items if results.get(k, {}).get("death") == "stack-overflow" or results.get(k, {}).get("hang")]
         over = over[:64]
         for (k, b), ph in zip(over, C.pool_map(lambda a: overflow_phase(ctx, a[1][1], a[0]), list(enumerate(over)))):
             results[k]["phase"] = ph
@@ -733,7 +729,7 @@ def run_texts(ctx, items, fresh_each=False, tag="t", engine_every=40, phases=Tru
 
 def overflow_phase(ctx, b, slot=0):
     out = os.path.join(SCRATCH, "phase%d.out" % slot)
-    rc, tail = spawn("phase", ["T 0 " + b.hex()], out, os.path.join(SCRATCH, "sandbox", "phase%d" % slot), timeout=60)
+    rc, tail = spawn("phase", ["T 0 " + b.hex()], out, os.path.join(SCRATCH, "sandbox", "phase%d" % slot), timeout=25)
     last = "start"
     for r in read_records(out):
         if r.startswith("PH "):
@@ -770,9 +766,12 @@ HISTORIES = [
     ("error-inside-handler-inside-handler",
      [("T", "(with-handler (lambda (e) (with-handler (lambda (e2) (car e2)) (cdr 7))) (car 1))", ("error", "")),
       ("X", "(with-handler (lambda (e) 'again) (car 1))", ("value", "again"))]),
-    ("continuation-of-failed-evaluation",
-     [("T", "(define c07-k2 #f) (+ 1 (call/cc (lambda (k) (set! c07-k2 k) 1))) (car 1)", ("error", "")),
+    ("continuation-of-earlier-evaluation-at-top-level",
+     [("T", "(define c07-k2 #f) (+ 1 (call/cc (lambda (k) (set! c07-k2 k) 1)))", None),
       ("T", "(c07-k2 10)", None), ("X", "(+ 1 1)", ("value", "2"))]),
+    ("continuation-of-earlier-evaluation-inside-a-call",
+     [("T", "(define c07-k3 #f) (+ 1 (call/cc (lambda (k) (set! c07-k3 k) 1)))", None),
+      ("T", "(define (c07-f3) (c07-k3 10)) (list 1 2 (c07-f3))", None), ("X", "(+ 1 1)", ("value", "2"))]),
 ]
 
 
@@ -799,8 +798,14 @@ def run_histories(ctx, classes, stats):
         for i, (k, text, exp) in enumerate(steps):
             g = got.get(i)
             if g is None:
-                bad.append("step %d: no answer" % i)
+                bad.append("step %d `%s`: no answer (the evaluation did not return)" % (i, text))
                 break
+            if g[0] == "res" and g[1].startswith("panic"):
+                bad.append("step %d `%s`: %s" % (i, text, g[1][:200]))
+                continue
+            if g[0] == "res" and "Interrupted by user" in g[1] and not (exp and exp[1] == "Interrupted"):
+                bad.append("step %d `%s`: did not terminate (interrupted by the watchdog)" % (i, text))
+                continue
             if exp is None:
                 continue
             if exp[0] == "value":
@@ -1132,7 +1137,7 @@ def run(ctx):
     # (i) texts
     t0 = time.time()
     items = gen_texts(ctx, stats)
-    res = run_texts(ctx, items, tag="t")
+    res = run_texts(ctx, items, tag="t", phases=False)
     stats["texts"] = len(items)
     outcome = {"ok": 0, "err": 0, "panic": 0, "death": 0, "hang": 0, "interrupted": 0, "probes_run": 0, "missing": 0}
     suspects = []
@@ -1153,7 +1158,7 @@ def run(ctx):
     stats["text_outcomes"] = outcome
     stats["texts_wall_s"] = round(time.time() - t0, 1)
     # every failure is replayed alone on a fresh engine; what reproduces there is reported with that single text
-    alone = run_texts(ctx, [(k, b) for k, b, _ in suspects], fresh_each=True, tag="a") if suspects else {}
+    alone = run_texts(ctx, [(k, b) for k, b, _ in suspects], fresh_each=True, tag="a", hard_ms=12000, batch=3) if suspects else {}
     excused = 0
     for key, b, r in suspects:
         ra = alone.get(key)
@@ -1165,7 +1170,9 @@ def run(ctx):
                 excused += 1
                 continue
             if ck.startswith("hang:") and not fa:
-                ck = "hang:not-reproduced-alone"
+                # slower than the first pass's limit under load, but it answered within the longer limit alone
+                stats["slow_not_hung_texts"] = stats.get("slow_not_hung_texts", 0) + 1
+                continue
             note = "" if fa else "  [only in a history of evaluations on one engine; replay = the failing text, history lost]"
             classes.add(ck, text, det + note, src)
     stats["probe_mismatch_excused_redefinition"] = excused
